@@ -11,7 +11,7 @@ from hypothesis import strategies as st
 
 from vlib.runner import Fail, InvalidCase
 
-OP_POOL = ["dfg", "noop", "not", "mktuple", "custom", "input", "output", "tag", "divmod", "sink0", "src0", "directext"]
+OP_POOL = ["dfg", "noop", "not", "mktuple", "custom", "input", "output", "tag", "divmod", "divmod6", "sink0", "src0", "directext"]
 
 
 _DIRECT = []
@@ -72,6 +72,10 @@ def mk_pool_op(name):
         from hugr.std.int import DivMod
 
         return DivMod
+    if name == "divmod6":
+        from hugr.std.int import _DivModDef
+
+        return _DivModDef(6)  # the same registered op class with another type argument
     if name == "module":
         return ops.Module()
     if name == "const":
